@@ -1,0 +1,29 @@
+//go:build verif
+
+package mergeset
+
+// Contracts for /verif (gvc). Comment-only file; see /verif/DESIGN.md §10.4 (#29).
+
+// The physical purge after DROP SERIES rewrites every index part without the items of the deleted series ids - and
+// without losing anything else: an item that does not fit into the block being built is added again after the block
+// was flushed; the scan never moves on to the next item while the last one is still waiting.
+//@ prop C13 C10
+//@ func (*Table).genTempPart
+//@   ghost tries int = 0
+//@   ghost lastFailed bool = false
+//@   call (*inmemoryBlock).Add
+//@     requires [the_item_that_did_not_fit_is_retried] arg0 == ps.Item
+//@     set tries = tries + 1
+//@     set lastFailed = !ret0
+//@   call (*partSearch).NextItem
+//@     requires [no_surviving_item_is_left_behind] !(tries == 1 && lastFailed)
+//@     set tries = 0
+//@     set lastFailed = false
+//@   loop 1
+//@     invariant !(tries == 1 && lastFailed)
+
+// Deleting measurements from a part: the items kept in memory by the scan are written first; one that does not fit is
+// retried after the flush - that very item, not the one the part cursor happens to stand on.
+//@ func (*Table).deleteMstsInTmpPart
+//@   call (*inmemoryBlock).Add
+//@     requires [only_the_current_item_is_added] arg0 == item || arg0 == ps.Item
